@@ -67,6 +67,8 @@ int main(void)
 	__CPROVER_havoc_object(of_rs_gf_exp);
 	__CPROVER_havoc_object(of_rs_gf_log);
 	__CPROVER_havoc_object(of_rs_inverse);
+#else
+	of_generate_gf();	/* replay: a concrete non-zero initial state, the one left by an earlier initialisation */
 #endif
 	of_generate_gf();
 #if OFV_T == 6
